@@ -1,5 +1,6 @@
 import OsloPolicy.Proofs.ParserDen
 import OsloPolicy.Proofs.EvalDen
+import OsloPolicy.Proofs.LexLayout
 /-
 C01 — rule expressions decide exactly as the documented Boolean language says.
 Property theorems only; helper lemmas live in `Proofs/`.
@@ -42,6 +43,55 @@ theorem constants (leaf ref) :
   · simp [parseValue, parseListRule, listRuleShape, evalTree]
   · simp [parseCheck, evalTree]
   · simp [parseCheck, evalTree]
+
+theorem render_ne_nil : ∀ {n} (e : E n), e.render ≠ []
+  | _, .leaf _ => by simp [E.render]
+  | _, .paren _ => by simp [E.render]
+  | _, .not _ => by simp [E.render]
+  | _, .up1 e => by simpa [E.render] using render_ne_nil e
+  | _, .and a b => by simp [E.render]
+  | _, .up0 e => by simpa [E.render] using render_ne_nil e
+  | _, .or a b => by simp [E.render]
+
+/-- **Lexical invariance.** However a sentence's tokens are spelled — any whitespace runs
+(Python's `str.isspace` set) around and between words, `(` glued to what follows and `)` to
+what precedes or standing alone, keywords in any letter case — the text parses to the same
+tree `build e`. -/
+theorem lex_layout (e : E 0) (sep0 : Str) (ws : List (Word × Str)) (h0 : IsSep sep0)
+    (h : LayoutOK ws) (hw : ws.flatMap (fun p => p.1.toks) = e.render) :
+    parseText (spell sep0 ws) = build e := by
+  have htok := tokenize_spell sep0 ws h0 h
+  have hne : (spell sep0 ws).isEmpty = false := by
+    cases hs : spell sep0 ws with
+    | nil =>
+      have : tokenize (spell sep0 ws) = [] := by rw [hs]; simp [tokenize, splitWs, splitWsAux]
+      rw [htok, hw] at this
+      exact absurd this (render_ne_nil e)
+    | cons _ _ => rfl
+  simp [parseText, hne, htok, hw, parseToks_render]
+
+/-- … and therefore decides as the documented language says, whatever the layout. -/
+theorem layout_decision (e : E 0) (sep0 : Str) (ws : List (Word × Str)) (h0 : IsSep sep0)
+    (h : LayoutOK ws) (hw : ws.flatMap (fun p => p.1.toks) = e.render)
+    (ρ leaf ref) (hv : valOf ρ leaf ref) :
+    evalTree leaf ref (parseText (spell sep0 ws)) = .ret (e.den ρ) := by
+  rw [lex_layout e sep0 ws h0 h hw, evalTree_den ρ leaf ref hv, build_den]
+
+/-- Two layouts of the same sentence never differ in a decision (case, whitespace, glue). -/
+theorem layouts_agree (e : E 0) (s1 s2 : Str) (w1 w2 : List (Word × Str))
+    (h1 : IsSep s1) (h2 : IsSep s2) (l1 : LayoutOK w1) (l2 : LayoutOK w2)
+    (e1 : w1.flatMap (fun p => p.1.toks) = e.render) (e2 : w2.flatMap (fun p => p.1.toks) = e.render) :
+    parseText (spell s1 w1) = parseText (spell s2 w2) := by
+  rw [lex_layout e s1 w1 h1 l1 e1, lex_layout e s2 w2 h2 l2 e2]
+
+/-! Non-vacuity of the layout hypotheses: `(role:a  AND\tnot role:b)` with a tab and a
+double space is a layout of `( role:a and not role:b )`. -/
+example : LayoutOK
+    [(⟨1, .leaf "role:a".toList, 0⟩, "  ".toList), (⟨0, .kw .kAnd "AND".toList, 0⟩, "\t".toList),
+     (⟨0, .kw .kNot "not".toList, 0⟩, " ".toList), (⟨0, .leaf "role:b".toList, 1⟩, [])] := by
+  simp [LayoutOK, Word.WF, Core.WF, CleanLeaf, Word.chars, Core.chars, IsSep, kwAnd, kwOr, kwNot,
+    isQuoted, asciiLower]
+  decide
 
 /-! Non-vacuity: a sentence mixing all operators, `a or b and (c or d) and not e`. -/
 example : ∃ e : E 0, e.render.length = 12 :=
